@@ -42,8 +42,8 @@ package origins
 
 //@ func parseScheme
 //@   props C01 C13 C17 C18
-//@   local end int
 //@   local i int
+//@   local end int
 //@   pure
 //@   allocs <= 0
 //@   ensures result2 == (len(str) > 0 && isLowerAlpha(str[0]))
@@ -65,11 +65,12 @@ package origins
 
 //@ func Tree.Contains
 //@   props C01 C17 C18
-//@   local found bool
 //@   local host string
-//@   local i int
-//@   local label byte
 //@   local n *origins.node
+//@   local label byte
+//@   local ok bool
+//@   local i int
+//@   local found bool
 //@   local prefixOfHost string
 //@   local suf string
 //@   pure
@@ -88,9 +89,9 @@ package origins
 
 //@ func splitAtCommonSuffix
 //@   props C01 C13 C17 C18
-//@   local i int
-//@   local l string
 //@   local s string
+//@   local l string
+//@   local i int
 //@   pure
 //@   allocs <= 0
 //@   ensures len(result2) <= len(a) && len(result2) <= len(b) && result0 === a[:len(a)-len(result2)] && result1 === b[:len(b)-len(result2)]
@@ -178,9 +179,9 @@ package origins
 
 //@ func parsePort
 //@   props C01 C13 C17 C18
-//@   local end int
-//@   local i int
 //@   local port int
+//@   local i int
+//@   local end int
 //@   pure
 //@   allocs <= 0
 //@   ensures !result2 ==> result0 == 0 && result1 === str
@@ -229,9 +230,11 @@ package origins
 
 //@ func fastParseHost
 //@   props C01 C13 C17 C18
+//@   local end int
+//@   local host origins.Host
+//@   local previousByteWasLabelSep bool
 //@   local assumeIPv4 bool
 //@   local i int
-//@   local previousByteWasLabelSep bool
 //@   pure
 //@   allocs <= 0
 //@   ensures (len(str) >= 4 && str[0] == '[') && result2 ==> result0.AssumeIP && len(result0.Value) + 2 <= len(str) && result0.Value === str[1:len(result0.Value)+1] && str[len(result0.Value)+1] == ']' && result1 === str[len(result0.Value)+2:] && (forall k :: 0 <= k && k <= len(result0.Value) ==> str[k] != ']')
